@@ -72,7 +72,7 @@ Print Assumptions C17_container_ops.
 
 (* text fields.  The parser stores strip(text): for the events of one <MD> (global or per
    array) the pair stored is (strip name, strip value), for one <Label> the text stored is
-   strip text (none at all for an empty text, S-C17d); and strip s = s iff s has no leading
+   strip text (the empty text for <Label .../>, after fix 616e06f9); and strip s = s iff s has no leading
    or trailing whitespace.  So the FULL statement "name/value/label text round-trips
    exactly" holds iff the text is not whitespace-delimited; C17_text_exact_refuted is the
    witness ' x ' -> 'x' (finding S-C17b). *)
@@ -88,8 +88,7 @@ Theorem C17_text_fields :
   (forall b64dec zdecomp loadtxt s l k c t,
      s_chars s = None -> s_write_to s = None -> s_lata s = Some l ->
      run b64dec zdecomp loadtxt s (label_events k c t)
-     = Ok (set_write_to (set_label (set_lata s (Some (l ++ [mkLabel k c (match t with [] => None | _ => Some (strip t) end)])))
-                                   None) None)) /\
+     = Ok (set_write_to (set_label (set_lata s (Some (l ++ [mkLabel k c (Some (strip t))]))) None) None)) /\
   (forall s, strip s = s <-> (s = [] \/ (is_space (hd 0 s) = false /\ is_space (last s 0) = false))).
 Proof.
   split; [exact md_roundtrip|]. split; [exact md_roundtrip_da|]. split; [exact label_roundtrip|]. exact strip_id_iff.
